@@ -56,3 +56,10 @@ claim('C04',
       'constructor helpers, call-or-partially-apply, the operand order of then/./.>/<./apply/of, the read-old -> rhs -> drop -> '
       'run2(old, rhs) -> assign order of op-assign, and right sections for one-argument builtin calls.',
       'sibling-implementation cross-check + operand provenance over MIR')
+claim('C05',
+      'Decides the structural rules of the documented semantics, not equivalence with a reference interpreter: the exhaustive scope '
+      'table over all arms of evaluate and the clauses of evaluate_for, per-iteration/per-arm/per-call freshness of scopes (CFG '
+      'cycles, static parent), environment capture by lambdas, the exit algebra of every loop/fold/call/try site (Break/Continue '
+      'counts decremented by one, Return absorbed only by calls, Throw only by try), declaration vs assignment layering over the '
+      'Env parent chain, short-circuit polarity of and/or/coalesce and branch exclusivity of if.',
+      'exhaustive arm tables from HIR + CFG cycle/dominance/guard-polarity queries over MIR')
